@@ -1,11 +1,13 @@
 PROP = {
     "id": "C28",
     "theorem_modules": ["Verif.Properties.C28"],
-    "min_theorems": 7,
+    "min_theorems": 9,
     "required_theorems": [
         "Verif.Properties.C28.hostfacts_ok",
         "Verif.Properties.C28.extracted_all_wrapped",
         "Verif.Properties.C28.propagates_partial",
+        "Verif.Properties.C28.propagates",
+        "Verif.Properties.C28.no_success_after_failure",
         "Verif.Properties.C28.no_success_after_failure_partial",
         "Verif.Properties.C28.bls_swallow_witness",
     ],
@@ -23,7 +25,12 @@ PROP = {
                   "wrapped error and the executors run under Recover, then success implies every reached failure was "
                   "caught by a contracts.tryUpdate frame, and otherwise the result is an external-tagged error carrying "
                   "the first failure outside an exception frame, raised at the last host call made; no panic escapes "
-                  "(trees without BLS aggregation calls: _partial; witness for the BLS exception). FX: all 45 methods of "
+                  "(trees without BLS aggregation calls: _partial; witness for the BLS exception); propagates / "
+                  "no_success_after_failure extend both to ALL trees, absorbErr (BLS aggregation) nodes included, with the "
+                  "absorbed failures explicit: the result is ok or an external error carrying an injected failure raised at "
+                  "the last call made, every earlier failure was caught by tryUpdate or absorbed, and only an error RETURN "
+                  "(never a panic) of a call made by an absorbErr node is ever absorbed - the original conclusion 'caught by "
+                  "a documented frame' is false on such trees (bls_swallow_witness), which is why they stay _partial. FX: all 45 methods of "
                   "runtime.ExternalInterface call the inner interface inside errors.WrapPanic and return the "
                   "WrappedExternalError; the method set equals Interface+Metrics; the 36 recover() sites and the "
                   "defer-Recover entry points equal the pinned inventory. CC stream `fault`: 12 corpus programs x both "
@@ -32,8 +39,10 @@ PROP = {
                   "of failures; observation (escaped, ok/err, errors.As ExternalError, errors.Is sentinel, error class, "
                   "deployment result) judged by the property directly and compared with the model's prediction.",
     "level_note": "The theorem does not cover unmodelled Go code between a call site and the top that drops a returned "
-                  "error; that is what the crash-point stream covers, bounded by its corpus (it found the two known "
-                  "findings). A later host failure raised while the first one unwinds (metrics callbacks) may replace the "
+                  "error; that is what the crash-point stream covers, bounded by its corpus (it found the known finding "
+                  "bls-aggregate-error-swallowed and vm-type-load-drops-host-error, the latter fixed in /repo c7c148d: the VM's "
+                  "load*Type handlers now panic with the error of loading the declaring program as the interpreter's import "
+                  "handler does; witnesses in corpus/fault). A later host failure raised while the first one unwinds (metrics callbacks) may replace the "
                   "first in the result; the oracle accepts any injected failure of the run as carrier. 40 of 45 callbacks "
                   "are reached by the corpus (not reached: GetCode, ValueExists, ImplementationDebugLog, RecordTrace, "
                   "RecoverProgram and similar).",
